@@ -199,6 +199,42 @@ func vfGenProgram(rng *verifrt.Rand, maxThreads, maxOps int) [][]vfOp {
 	return progs
 }
 
+// vfGenSetup: a sequential prefix executed (and quiesced) before the racing goroutines start, so that the race begins from
+// a state that a purely concurrent program reaches only with luck: a mailbox that is already paused (with or without a
+// backlog), or one that was paused and resumed. Windows such as "Enqueue reads the pause flag, a whole Resume and its
+// consumer run, Enqueue pushes" then need one well-placed delay instead of three coordinated ones. Ids start at 1000.
+func vfGenSetup(rng *verifrt.Rand) []vfOp {
+	if rng.Intn(100) < 45 {
+		return nil
+	}
+	var ops []vfOp
+	id, seqU, seqS := 1000, 0, 0
+	user := func() vfOp { id++; seqU++; return vfOp{Kind: vfOpUser, Msg: vfMsg{ID: id, Sender: 99, Seq: seqU}} }
+	sys := func() vfOp {
+		id++
+		seqS++
+		return vfOp{Kind: vfOpSystem, Msg: vfMsg{ID: id, Sender: 99, Seq: seqS, Sys: true}}
+	}
+	switch rng.Intn(6) {
+	case 0: // paused, empty
+		ops = []vfOp{{Kind: vfOpPause}}
+	case 1: // paused with a user backlog
+		ops = []vfOp{{Kind: vfOpPause}}
+		for k := 1 + rng.Intn(3); k > 0; k-- {
+			ops = append(ops, user())
+		}
+	case 2: // backlog handled, then paused
+		ops = []vfOp{user(), {Kind: vfOpPause}}
+	case 3: // paused, system mail handled while paused, user mail waiting
+		ops = []vfOp{{Kind: vfOpPause}, sys(), user()}
+	case 4: // paused and resumed again (flags back to the start, ring has grown)
+		ops = []vfOp{user(), user(), user(), {Kind: vfOpPause}, user(), {Kind: vfOpResume}}
+	case 5: // paused twice
+		ops = []vfOp{{Kind: vfOpPause}, {Kind: vfOpPause}, user()}
+	}
+	return ops
+}
+
 func vfProgString(p [][]vfOp) string {
 	var parts []string
 	for g, ops := range p {
@@ -373,7 +409,7 @@ func (m *vfMon) analyse(final bool) (viol [][2]string) {
 func vfQuiesceSerial(c *verifrt.Ctl) {
 	for {
 		before := c.Steps()
-		time.Sleep(10 * time.Microsecond)
+		time.Sleep(time.Millisecond) // longer than the longest delay a yield point can take (500 us)
 		synctest.Wait()
 		if c.Steps() == before {
 			return
@@ -386,7 +422,7 @@ const vfIdleStepLimit = 64
 func TestVerif_mailboxsched(t *testing.T) {
 	R := verifrt.NewReport("mailboxsched", "PRNG programs (1-4 goroutines x 1-6 ops from {EnqueueUser, EnqueueSystem, Pause, Resume}; 30% of messages make the handler enqueue to / pause / resume its own mailbox; ring initial size 2) executed on the real UnboundedMailbox under a serialized random schedule: every statement of unbounded_mailbox.go is a yield point (vinstr) and exactly one goroutine runs between two points (synctest virtual time, bursty delays). non-trivial+distinct = distinct interleaving hashes (sequence of yield-point sites) of cases with >=2 goroutines or >=1 Pause")
 	defer R.Flush()
-	n := verifrt.EnvInt("VERIF_N", 40000)
+	n := verifrt.EnvInt("VERIF_N", 120000)
 	if verifrt.Thorough() {
 		n = 1000000
 	}
@@ -400,7 +436,11 @@ func TestVerif_mailboxsched(t *testing.T) {
 		seed := verifrt.CaseSeed("mailboxsched", ci)
 		rng := verifrt.NewRand(seed)
 		progs := vfGenProgram(rng, 4, 6)
+		setup := vfGenSetup(rng)
 		ps := vfProgString(progs)
+		if len(setup) > 0 {
+			ps = "setup:" + vfProgString([][]vfOp{setup}) + " then " + ps
+		}
 		R.Journal(ci, ps)
 		var viol [][2]string
 		var hash uint64
@@ -417,6 +457,10 @@ func TestVerif_mailboxsched(t *testing.T) {
 				mon := newVfMon()
 				mon.mb = NewUnboundedMailbox(2, mon)
 				c := verifrt.Begin(verifrt.ModeSerial, seed, 6000)
+				if len(setup) > 0 {
+					mon.runOps(setup)
+					vfQuiesceSerial(c)
+				}
 				var wg sync.WaitGroup
 				for g := range progs {
 					wg.Add(1)
